@@ -30,12 +30,13 @@ type Gen struct {
 	Width    int      // max elements per collection
 	StrLen   int      // max bytes of symbolic strings (0: strings chosen from Strs)
 	Strs     []string // concrete string choices when StrLen == 0
-	Names    []string // keyword / symbol / map-key names
+	NameAlphabet string // one-byte keyword / symbol / map-key names over this alphabet (default "ab")
 	Ints     []int    // when non-nil integers are chosen from this set instead of being 64-bit variables
 	NoSymbol bool
 	NoSet    bool
 	NoMap    bool
-	Alphabet []byte // when non-nil symbolic string bytes are restricted to it
+	Alphabet string // when non-empty symbolic string bytes are restricted to it
+	Lazy     bool   // nested values are materialised on first inspection
 }
 
 func itoa(i int) string { return strconv.Itoa(i) }
@@ -45,16 +46,7 @@ func Pick(tag string, names []string) string {
 	return names[vrt.Concrete(vrt.Choice(tag, len(names)))]
 }
 
-// InAlphabet assumes b is one of alpha.
-func InAlphabet(b byte, alpha []byte) {
-	ok := false
-	for _, a := range alpha {
-		ok = ok || b == a
-	}
-	vrt.Assume(ok)
-}
-
-// Str returns a string of symbolic bytes of length 0..max.
+// Str returns a string of 0..StrLen symbolic bytes (one fork per length).
 func (g *Gen) Str(tag string) string {
 	if g.StrLen == 0 {
 		if len(g.Strs) == 0 {
@@ -65,9 +57,10 @@ func (g *Gen) Str(tag string) string {
 	n := vrt.Concrete(vrt.Choice(tag+"/len", g.StrLen+1))
 	b := make([]byte, n)
 	for i := 0; i < n; i++ {
-		b[i] = vrt.Byte(tag + "/" + itoa(i))
-		if g.Alphabet != nil {
-			InAlphabet(b[i], g.Alphabet)
+		if g.Alphabet != "" {
+			b[i] = vrt.ByteIn(tag+"/"+itoa(i), g.Alphabet)
+		} else {
+			b[i] = vrt.Byte(tag + "/" + itoa(i))
 		}
 	}
 	return string(b)
@@ -80,20 +73,30 @@ func (g *Gen) Int(tag string) int {
 	return vrt.Int(tag)
 }
 
-func (g *Gen) names() []string {
-	if len(g.Names) > 0 {
-		return g.Names
+// Name returns a one-byte name over NameAlphabet without forking.
+func (g *Gen) Name(tag string) string {
+	al := g.NameAlphabet
+	if al == "" {
+		al = "ab"
 	}
-	return []string{"a", "b", "c"}
+	return string([]byte{vrt.ByteIn(tag, al)})
 }
 
-// Key returns a map key / set member: a string or a keyword over Names.
+// Key returns a map key / set member: a string or a keyword.
 func (g *Gen) Key(tag string) string {
-	n := Pick(tag+"/n", g.names())
+	n := g.Name(tag + "/n")
 	if vrt.Bool(tag + "/kw") {
 		return NewKeyword(n)
 	}
 	return n
+}
+
+// Elem returns a nested value; lazily materialised when g.Lazy is set.
+func (g *Gen) Elem(tag string, d int) MalType {
+	if g.Lazy {
+		return vrt.Lazy(func() any { return g.Value(tag, d) })
+	}
+	return g.Value(tag, d)
 }
 
 // Value returns a symbolic lisp data value of nesting depth <= d.
@@ -113,17 +116,17 @@ func (g *Gen) Value(tag string, d int) MalType {
 	case KString:
 		return g.Str(tag + "/s")
 	case KKeyword:
-		return NewKeyword(Pick(tag+"/kw", g.names()))
+		return NewKeyword(g.Name(tag + "/kw"))
 	case KSymbol:
 		if g.NoSymbol {
 			vrt.Assume(false)
 		}
-		return Symbol{Val: Pick(tag+"/sy", g.names())}
+		return Symbol{Val: g.Name(tag + "/sy")}
 	case KList, KVector:
 		n := vrt.Concrete(vrt.Choice(tag+"/n", g.Width+1))
 		elems := make([]MalType, n)
 		for i := 0; i < n; i++ {
-			elems[i] = g.Value(tag+"/"+itoa(i), d-1)
+			elems[i] = g.Elem(tag+"/"+itoa(i), d-1)
 		}
 		if k == KList {
 			return List{Val: elems}
@@ -139,7 +142,7 @@ func (g *Gen) Value(tag string, d int) MalType {
 			key := g.Key(tag + "/k" + itoa(i))
 			_, dup := m[key]
 			vrt.Assume(!dup)
-			m[key] = g.Value(tag+"/v"+itoa(i), d-1)
+			m[key] = g.Elem(tag+"/v"+itoa(i), d-1)
 		}
 		return HashMap{Val: m}
 	default:
@@ -160,6 +163,9 @@ func (g *Gen) Value(tag string, d int) MalType {
 
 // RefEq is the independent structural equality (never calls Equal_Q).
 func RefEq(a, b MalType) bool {
+	if vrt.Same(a, b) {
+		return true
+	}
 	switch x := a.(type) {
 	case nil:
 		return b == nil
